@@ -403,6 +403,21 @@ theorem buildB2_countR (op : String) (hop : op ∈ cmpOps) (pfx : String) (p : A
     (operand_seqOK (F := F) wf cfg hns hinj regexOk limit p hp hflat ih st2 ho hho c hc).2
 
 include hns in
+/-- `not(count(P))` -/
+theorem buildB2_notCount (pfx pfx' : String) (p : Ast)
+    (hp : Frag2 true p) (hflat : FlatAny p) (ih : BuildP2 (F := F) d cfg regexOk limit p) :
+    BuildB2 (F := F) d cfg regexOk limit
+      (.call "not" pfx (.acons (.call "count" pfx' (.acons p .anil)) .anil)) := by
+  intro fl st o h
+  obtain ⟨st1, co, hco, hq, hpr⟩ := build_not_inv regexOk limit true false pfx _ fl st o h
+  obtain ⟨st2, ho, hho, hcq, hcp⟩ := build_count_inv regexOk limit true false pfx' p _ _ co hco
+  have hop' : PropsOK ho.props := (ih {} st2 ho hho).1
+  refine ⟨by rw [hpr, hcp]; exact hop', fun c hc => ?_⟩
+  rw [hq, hcq]
+  exact predOK_notCount d cfg pfx pfx' ho.q p c
+    (operand_seqOK (F := F) wf cfg hns hinj regexOk limit p hp hflat ih st2 ho hho c hc).2
+
+include hns in
 /-- `n op count(P)` -/
 theorem buildB2_countL (op : String) (hop : op ∈ cmpOps) (lex pfx : String) (p : Ast)
     (hp : Frag2 true p) (hflat : FlatAny p) (ih : BuildP2 (F := F) d cfg regexOk limit p) :
@@ -490,6 +505,22 @@ theorem buildB2_strTest (name : String) (hn : name ∈ strTests) (pfx : String) 
   rw [hq]
   exact predOK_strTest d cfg name hn pfx ho.q a lit c (ha st1 ho hho c hc)
 
+omit wf hinj in
+/-- `contains(S, T)`, `starts-with(S, T)`, `ends-with(S, T)`: string-or-node-list arguments in both
+positions (the props of the call are those of its last argument) -/
+theorem buildB2_strTest2 (name : String) (hn : name ∈ strTests) (pfx : String) (a b : Ast)
+    (ha : ∀ st o, build regexOk limit true false a {} st = .ok o →
+      ∀ c : Spec.Ctx, validRef d c.node = true → StrArgOK (F := F) d cfg o.q a c)
+    (hb : ∀ st o, build regexOk limit true false b {} st = .ok o →
+      PropsOK o.props ∧ ∀ c : Spec.Ctx, validRef d c.node = true → StrArgOK (F := F) d cfg o.q b c) :
+    BuildB2 (F := F) d cfg regexOk limit (.call name pfx (.acons a (.acons b .anil))) := by
+  intro fl st o h
+  obtain ⟨st1, ho, ho2, hho, hho2, hq, hpr⟩ :=
+    build_strTest2_inv regexOk limit true false name hn pfx a b fl st o h
+  refine ⟨hpr ▸ (hb _ ho2 hho2).1, fun c hc => ?_⟩
+  rw [hq]
+  exact predOK_strTest2 d cfg name hn pfx ho.q ho2.q a b c (ha st1 ho hho c hc) ((hb _ ho2 hho2).2 c hc)
+
 /-! ## the induction -/
 
 include hns in
@@ -567,6 +598,9 @@ theorem build_frag2 (k : Bool) (e : Ast) (he : Frag2 k e) :
   | countL op lex pfx p hop hp hflat ih =>
     exact ⟨(fun h => nomatch h),
       fun _ => buildB2_countL wf cfg hns hinj regexOk limit op hop lex pfx p hp hflat (ih.1 rfl).1⟩
+  | notCount pfx pfx' p hp hflat ih =>
+    exact ⟨(fun h => nomatch h),
+      fun _ => buildB2_notCount wf cfg hns hinj regexOk limit pfx pfx' p hp hflat (ih.1 rfl).1⟩
   | lnCmp op pfx lit hop =>
     exact ⟨(fun h => nomatch h),
       fun _ => buildB2_strCmp cfg regexOk limit op hop _ lit (buildStr_localName0 cfg regexOk limit pfx)⟩
@@ -591,6 +625,18 @@ theorem build_frag2 (k : Bool) (e : Ast) (he : Frag2 k e) :
     exact ⟨(fun h => nomatch h),
       fun _ => buildB2_strTest cfg regexOk limit name hn pfx p lit
         (buildArg_path wf cfg hns hinj regexOk limit p hp hflat (ih.1 rfl).1)⟩
+  | strPath2 name pfx p q hn hp hflat hq hflatq ihp ihq =>
+    exact ⟨(fun h => nomatch h),
+      fun _ => buildB2_strTest2 cfg regexOk limit name hn pfx p q
+        (buildArg_path wf cfg hns hinj regexOk limit p hp hflat (ihp.1 rfl).1)
+        (fun st o hb => ⟨((ihq.1 rfl).1 {} st o hb).1,
+          buildArg_path wf cfg hns hinj regexOk limit q hq hflatq (ihq.1 rfl).1 st o hb⟩)⟩
+  | strLitPath name pfx s q hn hq hflatq ihq =>
+    exact ⟨(fun h => nomatch h),
+      fun _ => buildB2_strTest2 cfg regexOk limit name hn pfx (.str s) q
+        (fun st o hb => (buildStr_lit cfg regexOk limit s).buildArg cfg regexOk limit {} st o hb)
+        (fun st o hb => ⟨((ihq.1 rfl).1 {} st o hb).1,
+          buildArg_path wf cfg hns hinj regexOk limit q hq hflatq (ihq.1 rfl).1 st o hb⟩)⟩
 
 end
 
